@@ -53,7 +53,7 @@ CHECKS = {
             "Only the two documents named by the property are parsed; the plain-text /status page has no grammar.",
             "deterministic simulation: hostile peer output injection, document grammar oracles", "§5 C22"),
     "C29": ("B (collector level): real Collector::start().repository() with simulated RRDP server and fake rsync", "fault_enumeration",
-            "The full product fallback policy x RRDP outcome {updated, current, stale, unavailable} x rrdp on/off x rsync on/off x CA with/without rpkiNotify, and for current/stale copies whether the copy was last confirmed by the 200 answer that created it or by a later 304 answer = 144 cells, each executed once; outcomes are produced (failing server with a copy confirmed 10 s or 10 days earlier on the simulated clock, or no copy); observed: fake-rsync invocation for the CA's module and the kind of repository handed out; oracle: the table in the property. Exhaustive. Engine A additionally compares the set of rsync modules and RRDP repositories used in every run with the model.",
+            "The full product fallback policy x RRDP outcome {updated, current, stale, unavailable} x rrdp on/off x rsync on/off x CA with/without rpkiNotify, and for current/stale copies whether the copy was last confirmed by the 200 answer that created it or by a later 304 answer and whether a run in between learned of a newer version but could fetch neither delta nor snapshot = 192 cells, each executed once; outcomes are produced (failing server with a copy confirmed 10 s or 10 days earlier on the simulated clock, or no copy); observed: fake-rsync invocation for the CA's module and the kind of repository handed out; oracle: the table in the property. Exhaustive. Engine A additionally compares the set of rsync modules and RRDP repositories used in every run with the model.",
             "Copy expiry relies on best-before lying in [refresh, max(2*refresh, fallback-time)).",
             "deterministic simulation: exhaustive enumeration of the configuration x fault-outcome table", "§5 C29"),
     "C31": (ENGINE_A, "exploration",
@@ -153,7 +153,7 @@ CHECKS.update({
 
 CHECKS.update({
     "C32": ("F (cmd): the real vrps / validate / update / server commands as subprocesses with scripted run outcomes", "fault_enumeration",
-            "All sequences over {ok, retryable failure, fatal failure} up to length 4 (server: 5 in thorough) for vrps, validate, update and server, each executed by the real Operation::run in a child process with the run outcome forced at the start of ValidationReport::process; the number of started runs, the exit status and a run-count watchdog (exit 97) decide. Exhaustive to the stated bound.",
+            "All sequences over {ok, retryable failure, fatal failure} up to length 4 (server: 5 in thorough) for vrps, validate, update and server, plus for vrps and server the sequences containing a retryable failure with a failing sanitize step (hook H14), each executed by the real Operation::run in a child process with the run outcome forced at the start of ValidationReport::process; the number of started runs, the exit status and a run-count watchdog (exit 97) decide. Exhaustive to the stated bound.",
             "The child is the harness binary performing exactly what src/main.rs does; no TALs so unforced runs succeed immediately; the server is observed through its run log and exit status only.",
             "deterministic simulation: exhaustive enumeration of run-outcome (fault) sequences to a bound against the real command loop", "§5 C32"),
 })
